@@ -36,6 +36,9 @@ pub enum Resolver {
     /// a join is in flight (polled once, then left alone) while a second one is awaited; the
     /// first is awaited afterwards
     JoinInFlight,
+    /// await the address, then - the actor is gone - make new handles from a remaining address
+    /// (sender, caller, weak round trip) and submit through them: errors, like everything else
+    AwaitThenConvert,
 }
 
 pub struct X {
@@ -198,6 +201,20 @@ pub fn make_case(progs: &[Vec<L>], cause: Cause, resolver: Resolver, mailbox: Ma
         Resolver::None => {}
         Resolver::Halt => clients.push(ClientSpec { init: vec![HInit::Addr], ops: vec![Op::Halt(H::Addr(0))] }),
         Resolver::Await => clients.push(ClientSpec { init: vec![HInit::Addr], ops: vec![Op::Await(H::Addr(0))] }),
+        Resolver::AwaitThenConvert => clients.push(ClientSpec {
+            init: vec![HInit::Addr, HInit::Addr],
+            ops: vec![
+                Op::Await(H::Addr(0)),
+                Op::ToSender(H::Addr(1)),
+                Op::Send(H::Snd(0), 990),
+                Op::ToCaller(H::Addr(1)),
+                Op::Call(H::Cal(0), 991),
+                Op::Downgrade(H::Addr(1)),
+                Op::Upgrade(H::WAddr(0)),
+                Op::Call(H::Addr(2), 992),
+                Op::Ping(H::Addr(1)),
+            ],
+        }),
         Resolver::Join if own_free => clients.push(ClientSpec { init: vec![HInit::Own], ops: vec![Op::Join(H::Own(0))] }),
         Resolver::JoinTwice if own_free => clients.push(ClientSpec { init: vec![HInit::Own], ops: vec![Op::Join(H::Own(0)), Op::Join(H::Own(0))] }),
         Resolver::JoinInFlight if own_free => {
@@ -245,7 +262,7 @@ fn resolvers_for(cause: Cause) -> Vec<Resolver> {
         Cause::LastDrop => vec![Resolver::None],
         Cause::StoppedPanic => vec![Resolver::Halt],
         Cause::HandlerPanic(_) | Cause::TimeoutFail(_) | Cause::StartErr | Cause::StartPanic | Cause::StopClient => {
-            vec![Resolver::None, Resolver::Halt, Resolver::Await, Resolver::Join, Resolver::JoinTwice, Resolver::JoinInFlight]
+            vec![Resolver::None, Resolver::Halt, Resolver::Await, Resolver::Join, Resolver::JoinTwice, Resolver::JoinInFlight, Resolver::AwaitThenConvert]
         }
         // a cancellation point that is never reached must not leave the scene hanging: halt
         Cause::Cancel(_) => vec![Resolver::Halt],
